@@ -3,7 +3,7 @@ import importlib
 from pyvc.spec import SpecRegistry
 from . import common
 
-MODULES = ["leaf_station", "simstate", "statemachine", "servicing", "mechatronics"]
+MODULES = ["leaf_station", "simstate", "statemachine", "servicing", "mechatronics", "updates"]
 
 
 def build(world, ex):
